@@ -61,7 +61,7 @@ import (
 	ref "verifref"
 )
 
-var c18Kinds = []string{"sign", "verify", "vexp", "vcache", "batch", "keygen", "x25519", "x25519base", "mulbase", "srsign", "srverify", "h2c", "merlin"}
+var c18Kinds = []string{"sign", "verify", "vexp", "vcache", "batch", "keygen", "x25519", "x25519base", "mulbase", "triple", "srsign", "srverify", "h2c", "merlin"}
 
 type c18Op struct {
 	Kind string
@@ -98,7 +98,7 @@ type c18WCase struct {
 
 var c18MixedKinds = []string{
 	"vcache", "vcache", "vcache", "vcache", "vexp", "vexp", "vexp", "batch", "batch", "sign", "sign", "verify", "verify",
-	"keygen", "x25519", "x25519base", "mulbase", "mulbase", "srsign", "srverify", "h2c", "merlin"}
+	"keygen", "x25519", "x25519base", "mulbase", "mulbase", "triple", "triple", "srsign", "srverify", "h2c", "merlin"}
 
 func c18GenOp(t *rapid.T, kinds []string, keys []int, badOneIn int) c18Op {
 	op := c18Op{}
@@ -133,7 +133,7 @@ func c18GenWorkload(t *rapid.T) c18WCase {
 	c.Seed = rapid.Uint64().Draw(t, "seed")
 	c.Cold = rapid.IntRange(0, 2).Draw(t, "cold") == 0
 	c.Lockstep = rapid.IntRange(0, 2).Draw(t, "lockstep") == 0
-	shape := rapid.SampledFrom([]string{"mixed", "mixed", "mixed", "mixed", "mixed", "cache-storm", "cache-storm", "sign-storm", "multiscalar-storm"}).Draw(t, "shape")
+	shape := rapid.SampledFrom([]string{"mixed", "mixed", "mixed", "mixed", "mixed", "cache-storm", "cache-storm", "sign-storm", "multiscalar-storm", "lattice-storm"}).Draw(t, "shape")
 	c.Shape = shape
 	var (
 		ng, minOps, maxOps int
@@ -169,6 +169,14 @@ func c18GenWorkload(t *rapid.T) c18WCase {
 		ng = rapid.SampledFrom([]int{4, 6, 8, 12, 16}).Draw(t, "goroutines")
 		minOps, maxOps = 2, 4
 		kinds, keys, badOneIn = []string{"batch", "batch", "batch", "verify"}, []int{0, 1, 2, 3, 4, 5}, 12
+	case "lattice-storm":
+		// every goroutine runs the verification equation [a]A + [b]B - C with
+		// scalars a of every size class at the same time: the embedded lattice
+		// reduction takes its rare branches (whole-limb shifts, early exits) only
+		// for particular a, which hashed challenges practically never produce
+		ng = rapid.SampledFrom([]int{2, 4, 8, 8, 16}).Draw(t, "goroutines")
+		minOps, maxOps = 3, 8
+		kinds, keys, badOneIn = []string{"triple", "triple", "triple", "triple", "verify", "srverify"}, []int{0, 1, 2, 3, 4, 5}, 12
 	}
 	for g := 0; g < ng; g++ {
 		n := rapid.IntRange(minOps, maxOps).Draw(t, "nops")
@@ -308,6 +316,8 @@ func c18Touches(op c18Op) []string {
 		return []string{"merlin-base-transcript"}
 	case "mulbase":
 		return []string{"ED25519_BASEPOINT_TABLE(explicit)"}
+	case "triple":
+		return []string{"triple-scalar-mul(code path and package-level tables)"}
 	case "x25519":
 		if op.X&1 == 1 {
 			return []string{"x25519.Basepoint"}
@@ -380,6 +390,7 @@ func c18CheckWorkload(c c18WCase) h.Result {
 		return r.Result()
 	}
 	r.Eval(rep.Compared)
+	r.Class(cache.C18CPUBucket(rep.MaxRepCPUms))
 	switch {
 	case rep.RepsParallel == 0:
 		r.Class("goroutine-run-intervals-intersected:never")
@@ -590,9 +601,22 @@ func c18SigningKey(k int) int {
 }
 
 // c18BadSig returns the signature an op presents: valid, or damaged as op.Bad says.
+// Unaltered signatures (bad 0 and 3) are handed out as THE stored slice in
+// half of the ops, not a copy: goroutines that verify the same signature then
+// pass the very same bytes (as they already do for public keys and
+// messages).  Inputs are read-only for the library, so this must be
+// invisible; the child compares all shared inputs with pristine copies at the
+// end (c18MatSnapshot).
 func c18BadSig(sigs map[c18SigKey][]byte, k, mi, variant, bad int, x uint64) []byte {
+	share := (x>>52)&1 == 0
 	if bad == 3 {
+		if share {
+			return sigs[c18SigKey{k, (mi + 1) % 4, variant}]
+		}
 		return append([]byte(nil), sigs[c18SigKey{k, (mi + 1) % 4, variant}]...)
+	}
+	if bad == 0 && share {
+		return sigs[c18SigKey{k, mi, variant}]
 	}
 	sig := append([]byte(nil), sigs[c18SigKey{k, mi, variant}]...)
 	switch bad {
@@ -602,6 +626,39 @@ func c18BadSig(sigs map[c18SigKey][]byte, k, mi, variant, bad int, x uint64) []b
 		sig[32+int(x>>40)%31] ^= 1 << (uint(x>>48) % 8) // stays < 2^253: a canonical but wrong S most of the time
 	}
 	return sig
+}
+
+// c18MatSnapshot serialises every input buffer the goroutines share (keys,
+// messages, digests, signatures) in a fixed order.
+func c18MatSnapshot(m *c18Mat) []byte {
+	var out []byte
+	add := func(b []byte) {
+		out = binary.LittleEndian.AppendUint32(out, uint32(len(b)))
+		out = append(out, b...)
+	}
+	for i := range m.privs {
+		add(m.privs[i])
+	}
+	for i := range m.pubs {
+		add(m.pubs[i])
+	}
+	for i := range m.msgs {
+		add(m.msgs[i])
+		add(m.phs[i])
+	}
+	for _, tab := range []map[c18SigKey][]byte{m.sigs, m.srSigs} {
+		for k := 0; k < 8; k++ {
+			for mi := 0; mi < 4; mi++ {
+				for v := 0; v < 3; v++ {
+					if b, ok := tab[c18SigKey{k, mi, v}]; ok {
+						add(b)
+					}
+				}
+			}
+		}
+	}
+	add(x25519.Basepoint)
+	return out
 }
 
 // c18Shared holds the instances that the goroutines of one run share.
@@ -633,6 +690,49 @@ func c18Bool(b bool) []byte {
 		return []byte{1}
 	}
 	return []byte{0}
+}
+
+// c18LatticeScalar derives a scalar whose SIZE CLASS is chosen by x: the
+// lattice reduction inside the triple multiplication branches on the
+// magnitude of a (quotients of >= 32 bits, whole-limb shifts, immediate
+// exits), and uniformly random scalars take only the common branches.
+func c18LatticeScalar(x uint64) *scalar.Scalar {
+	raw := h.Expand(x^0x20, 32)
+	var b [32]byte
+	top := func(bits int) { // keep the low `bits` bits of raw and set bit bits-1
+		for i := 0; i < 32; i++ {
+			switch {
+			case 8*i+8 <= bits:
+				b[i] = raw[i]
+			case 8*i < bits:
+				b[i] = raw[i] & byte(1<<uint(bits-8*i)-1)
+			}
+		}
+		b[(bits-1)/8] |= 1 << uint((bits-1)%8)
+	}
+	switch (x >> 8) % 8 {
+	case 0, 1: // uniform
+		s, err := scalar.NewFromBytesModOrderWide(h.Expand(x^0x23, 64))
+		if err != nil {
+			panic(err)
+		}
+		return s
+	case 2, 3, 4: // 120..200 significant bits
+		top(120 + int((x>>16)%81))
+	case 5: // 2^n + small, n in 120..200
+		n := 120 + int((x>>16)%81)
+		b[n/8] |= 1 << uint(n%8)
+		b[0], b[1] = raw[0], raw[1]
+	case 6: // tiny
+		copy(b[:4], raw[:4])
+	case 7: // 1..252 significant bits, any size
+		top(1 + int((x>>16)%252))
+	}
+	s, err := scalar.NewFromBits(b[:])
+	if err != nil {
+		panic(err)
+	}
+	return s
 }
 
 // c18Exec performs one op.  It reads m (immutable), uses sh (shared between
@@ -730,6 +830,35 @@ func c18Exec(op c18Op, m *c18Mat, sh *c18Shared) []byte {
 			p.DoubleScalarMulBasepointVartime(s, curve.ED25519_BASEPOINT_POINT, s2)
 		} else {
 			p.MulBasepoint(curve.ED25519_BASEPOINT_TABLE, s)
+		}
+		c.SetEdwardsPoint(&p)
+		return append([]byte(nil), c[:]...)
+	case "triple":
+		// res = [a]A + [b]B - C through the verification equation routine, with a
+		// from c18LatticeScalar (all size classes), A a valid public key point
+		a := c18LatticeScalar(m.seed ^ op.X)
+		b, err := scalar.NewFromBytesModOrderWide(h.Expand(m.seed^op.X^0x21, 64))
+		if err != nil {
+			panic(err)
+		}
+		var (
+			cA      curve.CompressedEdwardsY
+			A, C, p curve.EdwardsPoint
+			c       curve.CompressedEdwardsY
+		)
+		copy(cA[:], m.pubs[op.K%6])
+		if _, err := A.SetCompressedY(&cA); err != nil {
+			panic(err)
+		}
+		cs, err := scalar.NewFromBytesModOrderWide(h.Expand(m.seed^op.X^0x22, 64))
+		if err != nil {
+			panic(err)
+		}
+		C.MulBasepoint(curve.ED25519_BASEPOINT_TABLE, cs)
+		if op.X&1 == 1 {
+			p.ExpandedTripleScalarMulBasepointVartime(a, curve.NewExpandedEdwardsPoint(&A), b, &C)
+		} else {
+			p.TripleScalarMulBasepointVartime(a, &A, b, &C)
 		}
 		c.SetEdwardsPoint(&p)
 		return append([]byte(nil), c[:]...)
@@ -857,11 +986,12 @@ func TestC18ChildWorkload(t *testing.T) {
 			}
 		}
 	}
+	pristine := c18MatSnapshot(m)
+	rep := cache.C18Report{}
 	if !c.Cold {
-		sequential()
+		cache.C18Guard(&rep, "sequential pass", sequential)
 	}
 
-	rep := cache.C18Report{}
 	for r := 0; r < reps && rep.Viol == nil; r++ {
 		sh := c18NewShared(c, m) // fresh shared instances every run
 		got := make([][][]byte, len(c.G))
@@ -903,9 +1033,9 @@ func TestC18ChildWorkload(t *testing.T) {
 				t1[g] = time.Now()
 			}(g)
 		}
-		wg.Wait()
+		cache.C18Guard(&rep, fmt.Sprintf("concurrent repetition %d", r), wg.Wait)
 		if want == nil {
-			sequential() // cold case: the first concurrent run came first
+			cache.C18Guard(&rep, "sequential pass", sequential) // cold case: the first concurrent run came first
 		}
 		for g := range c.G {
 			if panics[g] != "" {
@@ -939,6 +1069,9 @@ func TestC18ChildWorkload(t *testing.T) {
 		if rep.Viol == nil {
 			rep.Reps++
 		}
+	}
+	if rep.Viol == nil && !bytes.Equal(c18MatSnapshot(m), pristine) {
+		rep.Viol = &cache.C18Viol{Sig: "api:shared-input-buffer-modified", Detail: "a key, message or signature buffer that the goroutines passed as (read-only) input differs from its pristine copy after the run"}
 	}
 	cache.C18ChildEmit(rep)
 	if rep.Viol != nil {
